@@ -3,6 +3,7 @@ use crate::runner::PropertyDef;
 pub mod c01;
 pub mod c02;
 pub mod c03;
+pub mod c04;
 pub mod c05;
 pub mod c06;
 pub mod c07;
@@ -15,6 +16,7 @@ pub fn all() -> Vec<(&'static str, fn() -> PropertyDef)> {
         ("C01", c01::def as fn() -> PropertyDef),
         ("C02", c02::def as fn() -> PropertyDef),
         ("C03", c03::def as fn() -> PropertyDef),
+        ("C04", c04::def as fn() -> PropertyDef),
         ("C05", c05::def as fn() -> PropertyDef),
         ("C06", c06::def as fn() -> PropertyDef),
         ("C07", c07::def as fn() -> PropertyDef),
